@@ -56,6 +56,20 @@ Fixpoint all_some {A} (l : list (option A)) : option (list A) :=
   | Some a :: t => match all_some t with None => None | Some r => Some (a :: r) end
   end.
 
+(* -------------------------------------------------- proposed repairs as flags *)
+(* false = the pinned behaviour, true = the behaviour after proposed_fixes/C14_Fk.diff:
+   fx17  UNet.__init__ sizes the decoder input for the encoder's real output when
+         middle_block=False (int(filters*rate^(levels-1)));
+   fx18  Encoder: down blocks get max(convs_per_block-1, 1) convolutions and, for
+         convs_per_block = 1, the last middle conv takes the last down block's channels;
+   fx41  Model: a head whose stride is 2 * dec.current_stride (the encoder output's
+         stride) is sized for dec.x_in_shape and fed the encoder output;
+   fx42  ConvNeXt / Swin-T wrappers report max_stride = max(configured,
+         stem_patch_stride * 2^down_blocks): the input domain is its multiples. *)
+Record fixes := { fx17 : bool; fx18 : bool; fx41 : bool; fx42 : bool }.
+Definition nofix : fixes := {| fx17 := false; fx18 := false; fx41 := false; fx42 := false |}.
+Definition allfix : fixes := {| fx17 := true; fx18 := true; fx41 := true; fx42 := true |}.
+
 (* ----------------------------------------------------------------- layers *)
 Inductive layer :=
 | LConvSame (cin cout k : Z)        (* nn.Conv2d(cin, cout, k, stride=1, padding="same") *)
@@ -172,7 +186,10 @@ Definition stem_kernel : Z := 7.     (* UNet.from_config does not forward it: th
 
 (* Encoder.__init__ : encoder_stack.  Item i gets pooling identifier i.
    None = NameError (`block_filters` unbound when there is no block at all). *)
-Definition encoder_stack (cin filters : Z) (rate : Q) (stem down : nat) (cpb k : Z)
+Definition down_convs (f18 : bool) (cpb : Z) : nat :=
+  Z.to_nat (if f18 then Z.max (cpb - 1) 1 else cpb - 1).
+
+Definition encoder_stack (f18 : bool) (cin filters : Z) (rate : Q) (stem down : nat) (cpb k : Z)
            (middle : bool) : option (list enc_item) :=
   let f := fint filters rate in
   let stem_part := map (fun b =>
@@ -183,7 +200,7 @@ Definition encoder_stack (cin filters : Z) (rate : Q) (stem down : nat) (cpb k :
   let down_part := map (fun b => let i := (b + stem)%nat in
       {| ei_scb := true; ei_pool := negb (Nat.eqb i 0);
          ei_layers := simple_conv_block i (if Nat.eqb i 0 then cin else f (Z.of_nat i - 1))
-                        (negb (Nat.eqb i 0)) true (Z.to_nat (cpb - 1)) (f (Z.of_nat i)) k |})
+                        (negb (Nat.eqb i 0)) true (down_convs f18 cpb) (f (Z.of_nat i)) k |})
       (seq 0 down) in
   let n := (stem + down)%nat in
   match n with
@@ -199,7 +216,8 @@ Definition encoder_stack (cin filters : Z) (rate : Q) (stem down : nat) (cpb k :
                  ei_layers := simple_conv_block (n + 1) after false false (Z.to_nat (cpb - 1)) fn k |}]
            else []) ++
           [{| ei_scb := true; ei_pool := false;
-              ei_layers := simple_conv_block (n + 2) fn false false 1 fn k |}]
+              ei_layers := simple_conv_block (n + 2) (if f18 && negb (1 <? cpb) then after else fn)
+                             false false 1 fn k |}]
         else [] in
       Some (stem_part ++ down_part ++ [bare] ++ mid)
   end.
@@ -258,7 +276,8 @@ Fixpoint up_forward (ls : list layer) (idx at_ : nat) (feat : option shape) (st 
       end
   end.
 
-Record decoder := { d_stack : list up_block; d_strides : list Z; d_residuals : nat; d_x_in : Z }.
+Record decoder := { d_stack : list up_block; d_strides : list Z; d_residuals : nat; d_x_in : Z;
+                    d_cs0 : Z }.      (* self.current_stride: the constructor argument *)
 
 Definition dec_convs_per_block : nat := 2%nat.   (* no caller passes convs_per_block to Decoder *)
 
@@ -304,7 +323,7 @@ Definition build_decoder (x_in cs0 filters : Z) (rate : Q) (up_blocks : nat) (le
   let fuel := S (S (Z.to_nat (Z.log2 cs1))) in
   if (cs1 <? os) then
     Some {| d_stack := for_part; d_strides := halvings cs0 up_blocks;
-            d_residuals := up_blocks; d_x_in := x_in |}
+            d_residuals := up_blocks; d_x_in := x_in; d_cs0 := cs0 |}
   else match up_blocks with
        | O => None
        | S ub1 =>
@@ -312,7 +331,7 @@ Definition build_decoder (x_in cs0 filters : Z) (rate : Q) (up_blocks : nat) (le
            | None => None
            | Some (bs, ss) =>
                Some {| d_stack := for_part ++ bs; d_strides := halvings cs0 up_blocks ++ ss;
-                       d_residuals := up_blocks; d_x_in := x_in |}
+                       d_residuals := up_blocks; d_x_in := x_in; d_cs0 := cs0 |}
            end
        end.
 
@@ -362,16 +381,17 @@ Definition count_pools (stack : list enc_item) : nat :=
   length (filter (fun it => ei_scb it && ei_pool it) stack).
 
 (* UNet.from_config + UNet.__init__ *)
-Definition build_unet (c : unet_cfg) : option backbone :=
+Definition build_unet_fx (fx : fixes) (c : unet_cfg) : option backbone :=
   let stem := Z.to_nat (unet_stem_blocks c) in
   let down := Z.to_nat (unet_down_blocks c) in
-  match encoder_stack (u_in_channels c) (u_filters c) (u_rate c) stem down
+  match encoder_stack (fx18 fx) (u_in_channels c) (u_filters c) (u_rate c) stem down
                       (u_convs_per_block c) (u_kernel c) (u_middle c) with
   | None => None
   | Some stack =>
       let current_stride := 2 ^ Z.of_nat (count_pools stack) in
       let levels := Z.of_nat (down + stem) in
-      let x_in := fint (u_filters c) (u_rate c) levels in
+      let x_in := fint (u_filters c) (u_rate c)
+                       (if fx17 fx && negb (u_middle c) then levels - 1 else levels) in
       match build_decoder x_in current_stride (u_filters c) (u_rate c) (unet_up_blocks c)
                           levels (u_output_stride c) (u_kernel c) (u_up_interp c) with
       | None => None
@@ -380,6 +400,8 @@ Definition build_unet (c : unet_cfg) : option backbone :=
                           bb_output_stride := u_output_stride c |}
       end
   end.
+
+Definition build_unet : unet_cfg -> option backbone := build_unet_fx nofix.
 
 (* ----------------------------------------------------------- convnext.py *)
 Record convnext_cfg := {
@@ -532,6 +554,22 @@ Definition backbone_forward (b : backbone) (st : pstate) (x : shape)
       end
   end.
 
+(* the encoder's output, i.e. the decoder's input `x` (repair fx41: Decoder.forward
+   returns it as outputs["encoder_output"]); same state, same input as backbone_forward *)
+Definition backbone_bottom (b : backbone) (st : pstate) (x : shape) : option shape :=
+  match bb_kind b with
+  | 0%nat =>
+      match enc_forward (bb_enc b) 0 (bb_keys b) st x [] with
+      | (Some (y, _), _) => Some y
+      | (None, _) => None
+      end
+  | _ =>
+      match feats_forward (bb_enc b) st x with
+      | (Some outs, _) => match rev outs with [] => None | y :: _ => Some y end
+      | (None, _) => None
+      end
+  end.
+
 (* -------------------------------------------------------------- heads.py *)
 Inductive head_kind := HSingle | HCentroid | HCentered | HMulti | HPaf | HClassMaps | HOffset.
 Record head := { h_kind : head_kind;
@@ -562,7 +600,12 @@ Definition get_head (mt : model_type) (parts edges os_confmaps os_pafs : Z) : li
   end.
 
 (* -------------------------------------------------------------- model.py *)
-Record model := { m_backbone : backbone; m_heads : list head; m_head_layers : list (list layer) }.
+Record model := { m_backbone : backbone; m_heads : list head; m_head_layers : list (list layer);
+                  m_f41 : bool }.     (* the code has the fx41 repair *)
+
+(* Model.encoder_stride (fx41) *)
+Definition encoder_stride (b : backbone) : Z := 2 * d_cs0 (bb_dec b).
+Definition at_top (f41 : bool) (b : backbone) (h : head) : bool := f41 && (h_os h =? encoder_stride b).
 
 (* max_channels property of the three wrappers *)
 Definition max_channels (b : backbone) : Z := d_x_in (bb_dec b).
@@ -591,17 +634,22 @@ Definition head_in_channels (fixed : bool) (b : backbone) (min_os : Z) (h : head
          | _, _ => None
          end.
 
-Definition build_model (fixed : bool) (ob : option backbone) (heads : list head) : option model :=
+Definition head_in_channels_fx (f41 fixed : bool) (b : backbone) (min_os : Z) (h : head) : option Z :=
+  if at_top f41 b h then Some (d_x_in (bb_dec b)) else head_in_channels fixed b min_os h.
+
+Definition build_model_fx (f41 fixed : bool) (ob : option backbone) (heads : list head) : option model :=
   match ob with
   | None => None
   | Some b =>
       let min_os := Z.min (min_list (bb_output_stride b) (map h_os heads)) (bb_output_stride b) in
-      match all_some (map (head_in_channels fixed b min_os) heads) with
+      match all_some (map (head_in_channels_fx f41 fixed b min_os) heads) with
       | None => None
       | Some ins => Some {| m_backbone := b; m_heads := heads;
-                            m_head_layers := map (fun hi => make_head (fst hi) (snd hi)) (combine heads ins) |}
+                            m_head_layers := map (fun hi => make_head (fst hi) (snd hi)) (combine heads ins);
+                            m_f41 := f41 |}
       end
   end.
+Definition build_model : bool -> option backbone -> list head -> option model := build_model_fx false.
 
 (* Model.forward: one output per head, in head order *)
 Definition model_forward (m : model) (st : pstate) (x : shape) : option (list shape) * pstate :=
@@ -609,6 +657,12 @@ Definition model_forward (m : model) (st : pstate) (x : shape) : option (list sh
   | (None, st') => (None, st')
   | (Some outs, st') =>
       (all_some (map (fun hl =>
+          if at_top (m_f41 m) (m_backbone m) (fst hl) then
+            match backbone_bottom (m_backbone m) st x with
+            | None => None
+            | Some y => fst (run_layers (snd hl) st' y)
+            end
+          else
           match index_of (h_os (fst hl)) (d_strides (bb_dec (m_backbone m))) with
           | None => None
           | Some idx => match nth_error outs idx with
@@ -644,12 +698,13 @@ Inductive config :=
 | CfgConvNext (c : convnext_cfg)
 | CfgSwinT (c : swint_cfg).
 
-Definition build_backbone (c : config) : option backbone :=
+Definition build_backbone_fx (fx : fixes) (c : config) : option backbone :=
   match c with
-  | CfgUNet u => build_unet u
+  | CfgUNet u => build_unet_fx fx u
   | CfgConvNext u => build_convnext u
   | CfgSwinT u => build_swint u
   end.
+Definition build_backbone : config -> option backbone := build_backbone_fx nofix.
 
 Definition cfg_max_stride (c : config) : Z :=
   match c with
@@ -747,6 +802,23 @@ Definition meets_contract (fixed : bool) (c : config) (heads : list head) (H W :
               end
   end.
 
+(* the same with the repairs as flags *)
+Definition meets_contract_fx (fixed : bool) (fx : fixes) (c : config) (heads : list head) (H W : Z) : bool :=
+  match build_model_fx (fx41 fx) fixed (build_backbone_fx fx c) heads with
+  | None => false
+  | Some m => match fst (model_forward m fresh (cfg_in_channels c, H, W)) with
+              | None => false
+              | Some outs => shapes_eqb outs (contracted heads H W)
+              end
+  end.
+
+(* the selectors that remain an excuse once the repairs `fx` (and the head rule
+   `fixed`) are in the code *)
+Definition any_selector_fx (fixed : bool) (fx : fixes) (c : config) (heads : list head) (H W : Z) : bool :=
+  (negb (fx17 fx) && selector_F17 c) || (negb (fx18 fx) && selector_F18 c) ||
+  (negb fixed && selector_F20 c heads) || (negb (fx41 fx) && selector_F41 c heads) ||
+  (negb (fx42 fx) && selector_F42 c H W) || (negb fixed && selector_F43 c heads).
+
 (* ------------------------------------------------ validity, as a boolean *)
 (* "valid" = accepted by config/model_config.py and inside the documented ranges:
    strides are powers of two, backbone output stride <= every head stride <=
@@ -798,16 +870,23 @@ Definition valid_config (c : config) (heads : list head) : bool :=
 Definition in_domain (c : config) (H W : Z) : bool :=
   (0 <? H) && (0 <? W) && (H mod cfg_max_stride c =? 0) && (W mod cfg_max_stride c =? 0).
 
+(* fx42: the assembled backbone reports max(configured, effective) as its max_stride;
+   the property's inputs are the multiples of what the model reports *)
+Definition model_max_stride (f42 : bool) (c : config) : Z :=
+  if f42 then Z.max (cfg_max_stride c) (effective_max_stride c) else cfg_max_stride c.
+Definition in_domain_fx (f42 : bool) (c : config) (H W : Z) : bool :=
+  (0 <? H) && (0 <? W) && (H mod model_max_stride f42 c =? 0) && (W mod model_max_stride f42 c =? 0).
+
 Definition sel_vector (c : config) (heads : list head) (H W : Z) : list bool :=
   [selector_F17 c; selector_F18 c; selector_F20 c heads; selector_F41 c heads; selector_F42 c H W;
    selector_F43 c heads].
 
 (* ------------------------------------------------ harness entry point *)
 Inductive case :=
-| CModel (fixed : bool) (c : config) (mt : model_type) (parts edges os_c os_p : Z)
+| CModel (fixed : bool) (fx : fixes) (c : config) (mt : model_type) (parts edges os_c os_p : Z)
          (inputs : list (Z * Z))                     (* a sequence of calls (H, W) on one instance *)
 | CPool (sizes : list (Z * Z))                       (* one MaxPool2dWithSamePadding(2,2,"same"), a sequence of calls *)
-| CEncoder (c : unet_cfg) (inputs : list (Z * Z)).   (* UNet encoder alone: (x, features) per call *)
+| CEncoder (fx : fixes) (c : unet_cfg) (inputs : list (Z * Z)).   (* UNet encoder alone: (x, features) per call *)
 
 Record result := {
   r_built : bool;                                    (* construction did not raise *)
@@ -836,8 +915,8 @@ Fixpoint encoder_calls (b : backbone) (cin : Z) (st : pstate) (xs : list (Z * Z)
 
 Definition run (c : case) : result :=
   match c with
-  | CModel fixed cfg mt parts edges os_c os_p inputs =>
-      match build_model fixed (build_backbone cfg) (get_head mt parts edges os_c os_p) with
+  | CModel fixed fx cfg mt parts edges os_c os_p inputs =>
+      match build_model_fx (fx41 fx) fixed (build_backbone_fx fx cfg) (get_head mt parts edges os_c os_p) with
       | None => {| r_built := false; r_convs := []; r_strides := []; r_calls := [] |}
       | Some m =>
           {| r_built := true; r_convs := model_convs m;
@@ -846,8 +925,8 @@ Definition run (c : case) : result :=
                           (map (fun hw => (cfg_in_channels cfg, fst hw, snd hw)) inputs) |}
       end
   | CPool sizes => {| r_built := true; r_convs := []; r_strides := []; r_calls := pool_calls true sizes |}
-  | CEncoder u inputs =>
-      match build_unet u with
+  | CEncoder fx u inputs =>
+      match build_unet_fx fx u with
       | None => {| r_built := false; r_convs := []; r_strides := []; r_calls := [] |}
       | Some b => {| r_built := true; r_convs := []; r_strides := [];
                      r_calls := encoder_calls b (u_in_channels u) fresh inputs |}
@@ -858,9 +937,9 @@ Definition run (c : case) : result :=
    harness's own (Python) implementation of the same predicates on every run *)
 Definition classify (c : case) : list (bool * (bool * list bool)) :=
   match c with
-  | CModel _ cfg mt parts edges os_c os_p inputs =>
+  | CModel _ fx cfg mt parts edges os_c os_p inputs =>
       let heads := get_head mt parts edges os_c os_p in
-      map (fun hw => (valid_config cfg heads, (in_domain cfg (fst hw) (snd hw),
+      map (fun hw => (valid_config cfg heads, (in_domain_fx (fx42 fx) cfg (fst hw) (snd hw),
                                                sel_vector cfg heads (fst hw) (snd hw)))) inputs
   | _ => []
   end.
